@@ -234,6 +234,19 @@ Theorem daacfind_on_arbitrary_bytes_no_side_condition :
 Proof. exact cli_main_raw_bytes_lemma. Qed.
 Print Assumptions daacfind_on_arbitrary_bytes_no_side_condition.
 
+(* (4) on the inputs the property speaks of -- pattern file, standard input, file contents and file
+   names the UTF-8 encodings of scalar-value texts -- the program on bytes IS the program of
+   Model/Cli.v, so daacfind_on_utf8_input is a theorem about it *)
+Theorem daacfind_on_bytes_given_utf8_text :
+  forall (fl : cli_flags) (pfile pstr : option (list N)) (stdin : list N) (files : list (list N * list N)),
+  (forall f, pfile = Some f -> Forall scalar f) -> Forall scalar stdin ->
+  Forall (fun f => Forall scalar (fst f) /\ Forall scalar (snd f)) files ->
+  let bfiles := map (fun f => (encode_utf8 (fst f), encode_utf8 (snd f))) files in
+  cli_main_raw fl (option_map encode_utf8 pfile) pstr (encode_utf8 stdin) bfiles
+  = cli_main fl (option_map encode_utf8 pfile) pstr (encode_utf8 stdin) bfiles.
+Proof. exact cli_main_raw_utf8_text. Qed.
+Print Assumptions daacfind_on_bytes_given_utf8_text.
+
 (* Non-vacuity: -p ab -n on standard input "ab\n<FF>\nab\n": the first line is printed, the program
    ends with status 1 at the line that is not UTF-8 (what the real binary does). *)
 Example c16_raw_observed :
